@@ -9,11 +9,13 @@ _bal = {}
 
 
 def balancer(threshold=0, n_jobs=1, trace=True, **kw):
-    key = (threshold, n_jobs, trace, tuple(sorted(kw.items())))
+    # one real Balancer per (n_jobs, tracing); the threshold is a public attribute read at run time
+    key = (n_jobs, trace, tuple(sorted(kw.items())))
     if key not in _bal:
         b = pipeline.make_balancer(confidence_threshold=threshold, n_jobs=n_jobs, **kw)
         tr = pipeline.Tracer(b) if trace else None
         _bal[key] = (b, tr)
+    _bal[key][0].confidence_threshold = threshold
     return _bal[key]
 
 
